@@ -1,6 +1,8 @@
 package opset13
 
 import (
+	"runtime"
+
 	"github.com/advancedclimatesystems/gonnx/onnx"
 	"github.com/advancedclimatesystems/gonnx/ops"
 	"gorgonia.org/tensor"
@@ -67,6 +69,11 @@ func (op *PRelu) Apply(inputs []tensor.Tensor) ([]tensor.Tensor, error) {
 	default:
 		return nil, ops.ErrInvalidInputType(0, x.Dtype().String(), op)
 	}
+
+	// x and slope may be temporary copies: they have to outlive the slices that Data() builds
+	// from their addresses, or the garbage collector may reclaim their memory while it is read.
+	runtime.KeepAlive(x)
+	runtime.KeepAlive(slope)
 
 	if err != nil {
 		return nil, err
